@@ -206,3 +206,140 @@ def c08_interrupted(obs, case=None):
             if obs.plan_end is None or obs.plan_end[0] != "return":
                 tags.append("call-returned-normally-but-plan-did-not-complete")
     return sorted(set(tags))
+
+
+# ------------------------------------------------------------------------------------------------ exit status (C02)
+def _cause_with_ndocs(obs):
+    """(cause, ndocs when it happened).  cause in stop/abort/halt/failed-pause/fault/None."""
+    ev = []
+    for r in obs.reqs:
+        if r["kind"] in ("abort", "stop", "halt") and r["out"][0] == "ret":
+            ev.append((r["step"], r["kind"], r["ndocs"]))
+    prev_ndocs = None
+    for c in obs.calls:
+        if c["api"] in ("abort", "stop", "halt") and c["outcome"] == "ret" and prev_ndocs is not None:
+            ev.append((prev_steps, c["api"], prev_ndocs))
+        prev_ndocs, prev_steps = c["ndocs"], c["steps"]
+    for (old, new), (n, step, nd) in zip(obs.trans, obs.trans_meta):
+        if new == "aborting" and old in ("running", "pausing", "suspending"):
+            if not [r for r in obs.reqs if r["kind"] == "abort" and r["out"][0] == "ret" and r["step"] <= step]:
+                ev.append((step, "failed-pause", nd))
+    fa = getattr(obs.lab, "fault_at", None)
+    if fa is not None:
+        ev.append((fa[0], "fault", fa[2]))
+    ev.sort(key=lambda x: x[0])
+    return (ev[0][1], ev[0][2]) if ev else (None, None)
+
+
+def last_ndocs_before(obs):
+    return obs.calls[-2]["ndocs"] if len(obs.calls) > 1 else 0
+
+
+def c02_exit_status(obs, case=None):
+    tags = []
+    if obs.state != "idle" or obs.stuck:
+        return tags
+    cause, nd = _cause_with_ndocs(obs)
+    last = obs.calls[-1]
+    exc = last["exc"]
+    stops = [(i, d) for i, (n, d) in enumerate(obs.docs) if n == "stop"]
+    failed = last["api"] in ("call", "resume") and last["exc_type"] not in (None, "RunEngineInterrupted")
+    if cause == "fault" and not failed and last["outcome"] == "ret":
+        cause = None  # the plan handled / was not affected by the fault
+    if failed and cause != "fault":
+        # an unhandled error other than the injected fault ended the call (e.g. the plan itself raised): same rule, 'fail' + reason
+        cause, nd = "fault", last_ndocs_before(obs)
+    closes = [(stp, m) for m, (stp, _) in zip(obs.msgs, obs.msg_meta) if m.command == "close_run"]
+    used_closes = set()
+    for i, d in stops:
+        st, reason = d.get("exit_status"), d.get("reason", "")
+        sd = obs.doc_meta[i][0] if i < len(obs.doc_meta) else None
+        by_msg = []
+        for ci, (stp, m) in enumerate(closes):
+            if sd is not None and stp <= sd <= stp + 1 and ci not in used_closes:
+                used_closes.add(ci)
+                by_msg = [m]
+                break
+        if by_msg and by_msg[-1].kwargs.get("exit_status") in (None, "success") and not by_msg[-1].kwargs.get("reason"):
+            # the plan itself closed this run as a normal completion before any interruption reached it
+            if st != "success":
+                tags.append("completed-run-not-marked-success")
+            continue
+        if cause is None or (nd is not None and i < nd and cause != "fault"):
+            if st != "success":
+                tags.append("completed-run-not-marked-success")
+            continue
+        if cause == "fault":
+            if failed:
+                if i >= nd:
+                    if st != "fail":
+                        tags.append("failed-run-not-marked-fail")
+                    elif reason != str(exc) and not ((obs.lab.fail_call is not None and reason.endswith(f"(call {obs.lab.fail_call})")) or (obs.lab.fail_status is not None and reason)):
+                        tags.append("fail-reason-is-not-the-exception-text")
+            continue
+        exp = {"stop": "success", "abort": "abort", "halt": "abort", "failed-pause": "abort"}[cause]
+        if st != exp:
+            tags.append(f"run-closed-after-{cause}-marked-{st}")
+    # what the blocking calls raised
+    for c in obs.calls:
+        if c["api"] in ("call", "resume"):
+            ended_paused = c["state"] == "paused"
+            if c["outcome"] == "ret":
+                continue  # C08 checks the normal-return side
+            if c["exc_type"] == "RunEngineInterrupted":
+                continue
+            if c["exc_type"] == "DeviceError":
+                if getattr(obs.lab, "fault_at", None) is None:
+                    tags.append("DeviceError-without-fault")
+                continue
+            if c["exc_type"] == "FailedStatus":
+                if type(c["exc"].__cause__).__name__ != "DeviceError" and not any(type(a).__name__ == "DeviceError" for a in c["exc"].args):
+                    tags.append("FailedStatus-not-chained-to-device-exception")
+                continue
+            # any other exception raised by resume()/RE() is the plan's or the engine's own failure: C03/C12 judge those
+    if failed and cause == "fault":
+        pass
+    elif cause in ("stop", "abort", "halt", "failed-pause"):
+        first_after = [c for c in obs.calls if c["api"] in ("call", "resume")]
+        if first_after and not any(c["exc_type"] == "RunEngineInterrupted" for c in first_after):
+            tags.append("interruption-did-not-raise-RunEngineInterrupted")
+    return sorted(set(tags))
+
+
+# ------------------------------------------------------------------------------------------------ cleanup at idle (C06)
+def c06_cleanup(obs, case=None):
+    tags = []
+    if obs.state != "idle" or obs.stuck:
+        return tags
+    per = defaultdict(list)
+    for j, dev, op, args in obs.ledger:
+        if j == obs.lab.fail_call:
+            if op in ("unstage", "stop", "collect"):
+                per[dev].append((j, op + "-attempt"))  # the engine tried; the device refused
+            continue  # a failing stage/kickoff/set did not happen
+        per[dev].append((j, op))
+    for dev, ops in per.items():
+        names = [o for _, o in ops]
+        if "stop-attempt" in names:
+            ops = [(j, "stop" if o == "stop-attempt" else o) for j, o in ops]
+        if "collect-attempt" in names:
+            ops = [(j, "collect" if o == "collect-attempt" else o) for j, o in ops]
+        ns, nu, na = names.count("stage"), names.count("unstage"), names.count("unstage-attempt")
+        if ns and not (nu == ns or (nu < ns <= nu + na)):
+            tags.append("device-staged-and-unstaged-unequal-times")
+        if "set" in names:
+            last_set = max(j for j, o in ops if o == "set")
+            if not any(o == "stop" and j > last_set for j, o in ops):
+                tags.append("moved-device-not-stopped-after-last-set")
+        if "kickoff" in names:
+            last_k = max(j for j, o in ops if o == "kickoff")
+            attempted = any(m.command == "collect" and (m.obj.name == dev or any(getattr(a, "name", None) == dev for a in m.args)) for m in obs.msgs)
+            if not any(o == "collect" and j > last_k for j, o in ops) and not attempted:
+                tags.append("kicked-off-flyer-never-collected")
+    for name, dev in obs.devices.items():
+        if hasattr(dev, "subs") and dev.subs:
+            tags.append("monitor-subscription-left-on-device-at-idle")
+    if getattr(obs, "percall_log", None) is not None and obs.followup is not None:
+        if obs.percall_after_followup:
+            tags.append("per-call-subscription-received-documents-of-next-call")
+    return sorted(set(tags))
